@@ -686,6 +686,7 @@ class Acc:
         self.viol: dict[str, tuple] = {}
         self.first: tuple | None = None
         self.last: tuple | None = None
+        self.varied: tuple | None = None   # a maximal history with the most distinct event kinds (for the samples)
         self.by_kind: dict[str, int] = {}
         self.pruned_violating = 0
 
@@ -696,6 +697,11 @@ class Acc:
             self.first = item
         if self.last is None or item[0] > self.last[0]:
             self.last = item
+        self._vary((len({e[0] for e in hist}), len(hist), item[0], item[1]))
+
+    def _vary(self, cand: tuple | None) -> None:
+        if cand is not None and (self.varied is None or cand[:3] > self.varied[:3]):
+            self.varied = cand
 
     def add_viol(self, key: str, what: str, hist: list) -> None:
         cur = self.viol.get(key)
@@ -711,6 +717,7 @@ class Acc:
         self.pruned_violating += o.pruned_violating
         for k, v in o.by_kind.items():
             self.by_kind[k] = self.by_kind.get(k, 0) + v
+        self._vary(o.varied)
         for key, cand in o.viol.items():
             cur = self.viol.get(key)
             if cur is None or cand[:2] < cur[:2]:
@@ -921,9 +928,9 @@ def _run(ctx: core.Ctx) -> core.Report:
                           "abstract_states": len(acc.states), "events_by_kind": dict(sorted(acc.by_kind.items())),
                           "histories_ended_by_violation": acc.pruned_violating,
                           "ids": [{"origin": p.origin, "path": p.path, "link_ids": p.ids} for p in plans]})
-        for item in (acc.first, acc.last):
-            if item is not None and {"k": k, "history": item[1]} not in samples:
-                samples.append({"k": k, "history": item[1]})
+        for hist in ([acc.varied[3]] if acc.varied else []) + [it[1] for it in (acc.first, acc.last) if it]:
+            if {"k": k, "history": hist} not in samples:
+                samples.append({"k": k, "history": hist})
     cov = {
         "states": len(states),
         "transitions": transitions,
